@@ -316,7 +316,18 @@ func c08Shapes(fs *Facts) {
 		ll := fc.Func("", "toFloat64Lossless")
 		if eq != nil && cn != nil && ll != nil {
 			es, cs := fc.Str(eq.Body), fc.Str(cn.Body)
-			ok := strings.Contains(es, "if a.Kind == KindInt64 && b.Kind == KindUint64 { return a.I >= 0 && uint64(a.I) == b.U }") &&
+			c07Canon(eq, []string{"a", "b", "af", "ok", "bf"})
+			es = fc.Str(eq.Body)
+			same := true
+			for _, c := range []string{"case KindNull: return true", "case KindBool: return a.B == b.B", "case KindInt64: return a.I == b.I",
+				"case KindUint64: return a.U == b.U", "case KindFloat64: return a.F == b.F", "case KindString: return a.S == b.S"} {
+				same = same && strings.Contains(es, c)
+			}
+			ok := same && strings.HasPrefix(es, "{ if a.Kind == b.Kind { switch a.Kind {") &&
+				strings.Contains(es, "if a.Kind == KindInt64 && b.Kind == KindUint64 { return a.I >= 0 && uint64(a.I) == b.U }") &&
+				strings.Contains(es, "if a.Kind == KindUint64 && b.Kind == KindInt64 { return b.I >= 0 && uint64(b.I) == a.U }") &&
+				strings.Contains(es, "bf, ok := toFloat64Lossless(b) if !ok { return false } return af == bf") &&
+				strings.Contains(fc.Str(ll.Body), "f := float64(k.U) if uint64(f) != k.U { return 0, false }") &&
 				strings.Contains(es, "if a.Kind == KindFloat64 || b.Kind == KindFloat64 { af, ok := toFloat64Lossless(a)") &&
 				strings.Contains(es, "if !isNumeric(a.Kind) || !isNumeric(b.Kind) { return false }") &&
 				strings.Contains(cs, "case time.Time: return Key{Kind: KindInt64, I: n.UTC().Unix()}") &&
